@@ -114,6 +114,8 @@ def run(ctx, n_quick=27, n_thorough=400):
             cfg = F.random_cfg(r, page_sizes=[512, 1024, 4096] if i % 5 else [8192, 65536, 2048], small=True)
             cfg["auto_vacuum"] = [0, 1, 2][i % 3]
             kind = KINDS[i % len(KINDS)]
+            if kind == "fresh_wal":
+                cfg["encoding"] = ["UTF-16be", "UTF-16le", "UTF-8"][(i // len(KINDS)) % 3]
             try:
                 h = H.make_history(sc.path(f"h{i}"), cfg, r, kind=kind)
             except sqlite3.Error as e:
